@@ -379,11 +379,11 @@ def main(tier, seed, only=None):
     thorough = tier == "thorough"
     validate_encoding(rep)
     groups = []
-    groups.append(("bump", "worker_bump", [dict(L=1, pre="within_demand"), dict(L=2, pre="within_demand")] + ([dict(L=3, pre="within_demand")] if thorough else []), replay_bump,
+    groups.append(("bump", "worker_bump", [dict(L=1, pre="within_demand"), dict(L=1, pre="any"), dict(L=2, pre="within_demand")] + ([dict(L=3, pre="within_demand")] if thorough else []), replay_bump,
                    ["Parameters.increase_biofuels_then_feed"],
                    "arrays of length 1..%d (the function is elementwise); every entry symbolic in [0,1e7]" % (3 if thorough else 2),
                    "biofuel, feed, increase, max_biofuel, max_feed, total_crops_available",
-                   ["case within_demand: old biofuel <= demand and old feed <= demand (what round 3 passes)", "upper bounds carry +1e-8 billion kcal: the code's own +1e-9 regulariser overshoots by < 1e-9"]))
+                   ["case within_demand: old biofuel <= demand and old feed <= demand; case any: no relation assumed (a value a rounding error above its demand reaches the call site), bound is max(old, demand)", "upper bounds carry +1e-8 billion kcal: the code's own +1e-9 regulariser overshoots by < 1e-9"]))
     ns = [2, 3, 4] + ([5, 6] if thorough else [])
     groups.append(("redistribute_meat", "worker_redis", [dict(N=n) for n in ns], replay_redis,
                    ["Parameters.get_second_round_kcals_with_redistributed_meat", "Parameters.fill_negatives_with_positives"],
